@@ -1565,7 +1565,9 @@ class Node:
         waiting_id = (message.header.hop_by_hop_identifier,
                       message.header.end_to_end_identifier)
         waiting_host_identity = None
-        for host_identity, messages in self._peer_waiting_answer.items():
+        # the tables are changed by the connection threads while this runs in
+        # an application thread: walk snapshots
+        for host_identity, messages in list(self._peer_waiting_answer.items()):
             if waiting_id in messages:
                 waiting_host_identity = host_identity
                 break
@@ -1574,10 +1576,15 @@ class Node:
             raise NotRoutable(
                 f"No peer is waiting for an answer with ID {hex(message_id)}")
 
-        del self._peer_waiting_answer[waiting_host_identity][waiting_id]
+        try:
+            del self._peer_waiting_answer[waiting_host_identity][waiting_id]
+        except KeyError:
+            # answered by another thread, or the peer went away, meanwhile
+            raise NotRoutable(
+                f"No peer is waiting for an answer with ID {hex(message_id)}")
 
         conn = None
-        for connected_peer in self.connections.values():
+        for connected_peer in list(self.connections.values()):
             if connected_peer.host_identity == waiting_host_identity:
                 conn = connected_peer
                 break
